@@ -205,6 +205,9 @@ def _rating_facts(key):
     facts['defaults'] = (d.mu, d.sigma, d.name, m.mu, m.sigma, m.beta, m.kappa, m.tau, m.limit_sigma)
     facts['hashable'] = isinstance(hash(R(1.0, 2.0)), int)
     facts['eq_self_copy'] = (R(1.0, 2.0) == R(1.0, 2.0), R(1.0, 2.0) != R(1.0, 2.5), R(1.0, 2.0) == 5, R(4.0, 1.0) < R(5.0, 1.0))
+    # equal ordinals with different (mu, sigma), and mu order opposite to ordinal order
+    pairs = [((25.0, 5.0), (28.0, 6.0)), ((28.0, 6.0), (25.0, 5.0)), ((25.0, 8.0), (20.0, 2.0)), ((20.0, 2.0), (25.0, 8.0)), ((10.0, 1.0), (10.0, 1.0))]
+    facts['order_rules'] = tuple((R(*x) < R(*y), R(*x) <= R(*y), R(*x) > R(*y), R(*x) >= R(*y), R(*x) == R(*y)) for x, y in pairs)
     facts['model_attrs'] = tuple(sorted(k for k in m.__dict__ if not k.endswith('Rating')))
     facts['str_has_values'] = ('1.5' in str(R(1.5, 2.5)) and '2.5' in str(R(1.5, 2.5)), '1.5' in repr(R(1.5, 2.5)))
     return facts
